@@ -262,6 +262,10 @@ class NamedGlob:
             path = Path(path)
             if path.is_dir():
                 path = path / ""
+            elif path.endswith("/"):
+                # For a pattern like `x/**`, `glob` yields `x/` without looking at `x`,
+                # also when `x` does not exist or is a file.
+                continue
             paths.append(path)
         self.extend(paths)
 
